@@ -10,6 +10,8 @@ errs(draft, schema, instance) -> list of (instance_path, schema_path) tuples,
 one per expected error ("one error per violation"); valid iff the list is empty.
 """
 from fractions import Fraction
+
+from mc.ref import numbers as _numbers
 from urllib.parse import unquote
 import math
 
@@ -205,6 +207,10 @@ def errs(draft, S, x, P=(), Q=(), root=None, depth=0):
         elif (k == "multipleOf" and draft >= 4) or (k == "divisibleBy" and draft == 3):
             if t != "number":
                 continue
+            if (isinstance(x, float) or isinstance(v, float)) and _numbers.claim(x, v) is None:
+                # outside the sub-domain where dividing the operands as binary floats is exact (the property
+                # that words float multipleOf, C09, claims exception-freedom only there)
+                raise Unsupported("float multipleOf outside the exact sub-domain")
             if (Fraction(x) / Fraction(v)).denominator != 1:
                 out.append((P, q))
         elif k == "minLength":
